@@ -27,7 +27,7 @@ RULE = (
     "(errors optionally suppressed by noqa / ignore= / warnings=), runaway_limit in {1,2,10}, executed by 2 path "
     "scenarios (API lint_paths(apply_fixes) or CLI fix/format; processes 1/2/4 under seeded SimPool schedules; "
     "optional write fault on a neighbouring fixable file) and stdin/API scenarios on individual file contents. "
-    "Invariant: every file whose own unfiltered result holds a templating/parse error (G) or that hit the fix "
+    "Invariant: every file whose own unfiltered result holds a templating/parse error, in this run or when linted alone in a fresh process (G), or that hit the fix "
     "loop limit (L) has no mutating disk op on it or its temp/suffixed sibling and unchanged bytes; stdin/API "
     "output equals input; L files report no fixes and exit code 1. evaluations = scenario executions. "
     "non-trivial iff the execution contained >= 1 file in G or L AND (paths) >= 1 other file was written in the "
@@ -82,8 +82,12 @@ def gen_scenarios(rng: Rng, world: dict) -> list[dict]:
     suppressed = [f for f in files if world["meta"][f].get("suppress") not in (None, "none")] or [
         f for f in files if world["meta"][f]["kind"] in ("parse_err", "tmpl_undef")
     ]
+    loopy = [f for f in files if world["meta"][f]["kind"] in ("fixable", "jinja_fixable")] if world["cfg"]["runaway_limit"] < 10 else []
     for i in range(2):
-        f = rng.choice(suppressed) if suppressed and rng.chance(0.6) else rng.choice(files)
+        if loopy and rng.chance(0.4):
+            f = rng.choice(loopy)
+        else:
+            f = rng.choice(suppressed) if suppressed and rng.chance(0.6) else rng.choice(files)
         out.append(
             {
                 "type": rng.choice(["stdin", "stdin", "api"]),
@@ -104,7 +108,7 @@ def _stem(rel: str) -> str:
     return os.path.splitext(rel)[0]
 
 
-def check_paths(world: dict, sc: dict, out: dict, events: list, initial: dict, after: dict, probes: Counter):
+def check_paths(world: dict, sc: dict, out: dict, events: list, initial: dict, after: dict, probes: Counter, g_ref: Optional[set] = None):
     """-> (violations, nontrivial?)"""
     cwd = world["cwd"]
     suffix = world["suffix"]
@@ -117,6 +121,12 @@ def check_paths(world: dict, sc: dict, out: dict, events: list, initial: dict, a
         perfile[rel] = f
         if f.get("tmp_prs_unfiltered", 0) > 0:
             G[rel] = "templating/parse error (unfiltered count %d)" % f["tmp_prs_unfiltered"]
+    for rel in sorted(g_ref or ()):
+        if rel not in G and rel in perfile:
+            # sqlfluff did not report the error in THIS run although the same file,
+            # linted alone in a fresh process, has one
+            G[rel] = "templating/parse error when linted alone in a fresh process (not reported in this run)"
+            probes["G_only_by_fresh_reference"] += 1
     L = set()
     for e in events:
         if e and e[0] == "looplimit" and e[2]:
@@ -189,6 +199,24 @@ def run_one(ctx: Any, seed: int, tier: str, replay: Optional[dict] = None) -> di
     sim_time = 0
     evaluations = 0
     try:
+        # independent ground truth: every file built to carry an error is linted ALONE
+        # in its own fresh process (no history, no neighbours)
+        g_ref: set = set()
+        if replay and "g_ref" in replay:
+            g_ref = set(replay["g_ref"])
+        else:
+            seams.restore_tree(root, initial)
+            for rel in sorted(world["meta"]):
+                if world["meta"][rel]["kind"] in ("parse_err", "tmpl_undef", "tmpl_fatal"):
+                    rn = z.node({"name": "ref", "root": root, "cwd": world["cwd"], "seed": seed, "knobs": {"journal_reads": False}})
+                    try:
+                        ro = rn.call("lint_paths", paths=[os.path.relpath(rel, world["cwd"])], processes=1)
+                    finally:
+                        rn.close()
+                    mf = ro.get("mon", {}).get("files", [])
+                    if mf and mf[0].get("tmp_prs_unfiltered", 0) > 0:
+                        g_ref.add(rel)
+                    probes["fresh_reference_lints"] += 1
         for si, sc in enumerate(scenarios):
             seams.restore_tree(root, initial)
             events: list = []
@@ -235,13 +263,13 @@ def run_one(ctx: Any, seed: int, tier: str, replay: Optional[dict] = None) -> di
             vs: list[tuple] = []
             nt = False
             if sc["type"] == "paths":
-                vs, nt = check_paths(world, sc, out, events, initial, after, probes)
+                vs, nt = check_paths(world, sc, out, events, initial, after, probes, g_ref)
                 probes["paths_exec_%s_p%d" % (sc["via"], sc["processes"])] += 1
                 if fired.get("err"):
                     probes["neighbour_write_fault_fired"] += 1
             else:
                 mf = out.get("mon", {}).get("files", [])
-                inG = bool(mf) and mf[0].get("tmp_prs_unfiltered", 0) > 0
+                inG = (bool(mf) and mf[0].get("tmp_prs_unfiltered", 0) > 0) or sc["file"] in g_ref
                 inL = any(e and e[0] == "looplimit" for e in events)
                 fixable = bool(mf) and mf[0].get("fixable", 0) > 0
                 if _files(after) != _files(initial):
@@ -270,7 +298,7 @@ def run_one(ctx: Any, seed: int, tier: str, replay: Optional[dict] = None) -> di
                 sc2 = dict(sc)
                 sc2["tape"] = tape
                 violations.append({"oracle": oracle, "signature": sig, "message": msg,
-                                   "replay": {"world": world, "scenario": sc2, "hashseed": hs, "warm": warm, "tier": tier}})
+                                   "replay": {"world": world, "scenario": sc2, "hashseed": hs, "warm": warm, "tier": tier, "g_ref": sorted(g_ref)}})
             if not samples and sc["type"] == "paths":
                 samples.append({
                     "files": {k: {"kind": v.get("kind"), "suppress": v.get("suppress")} for k, v in world["meta"].items()},
